@@ -161,8 +161,34 @@ def build_app(kind, size):
         app.add_route('/a/{x}/d/{z:int(2)}', Echo('d'))
         app.add_route('/e/{code:int}', Err())
         app.add_route('/w/{wid}', Widget())
+        app.add_static_route('/st', static_dir())
         app.add_error_handler(AppError, handle)
     return app
+
+
+_STATIC = [None]
+
+
+def static_dir():
+    """Two files whose media types only falcon's own suffix table knows; created once (before any fork), removed at exit."""
+    if _STATIC[0] is None:
+        import atexit
+        import os
+        import shutil
+        import tempfile
+        d = tempfile.mkdtemp(prefix='mc_c19_')
+        pid = os.getpid()
+
+        def cleanup():
+            if os.getpid() == pid:
+                shutil.rmtree(d, ignore_errors=True)
+        atexit.register(cleanup)
+        for name, data in (('x.yaml', b'a: 1\n'), ('y.yml', b'- b\n')):
+            with open(os.path.join(d, name), 'wb') as f:
+                f.write(data)
+            os.utime(os.path.join(d, name), (1600000000, 1600000000))
+        _STATIC[0] = d
+    return _STATIC[0]
 
 
 REQS = {
@@ -195,6 +221,9 @@ REQS = {
     # same status code, request-specific reason phrases
     'w1': dict(method='GET', raw_path='/w/17', query='', headers=[('X-Rid', 'r-w1')]),
     'w2': dict(method='GET', raw_path='/w/99', query='', headers=[('X-Rid', 'r-w2')]),
+    # static files (the response options' suffix table is consulted)
+    's1': dict(method='GET', raw_path='/st/x.yaml', query='', headers=[('X-Rid', 'r-s1')]),
+    's2': dict(method='GET', raw_path='/st/y.yml', query='', headers=[('X-Rid', 'r-s2')]),
 }
 
 
@@ -226,6 +255,32 @@ def solo(kind, size, name):
         app = build_app(kind, size)
         _SOLO[key] = wsgi_req(app, name) if kind == 'wsgi' else asgi_req(app, name)
     return _SOLO[key]
+
+
+def _pristine_one(key):
+    if key[0] == 'aio':
+        return key, aio_run(key[1], (key[2],), key[3], choice.Chooser(()))[0]
+    kind, size, name = key
+    app = build_app(kind, size)
+    return key, (wsgi_req(app, name) if kind == 'wsgi' else asgi_req(app, name))
+
+
+def ensure_pristine():
+    """The reference observation of every request: alone, on a fresh app, as the FIRST request of a fresh process
+    (forked from this one before it has served anything).  A baseline taken inside a process that has already served
+    requests would absorb whatever those left behind in module- or class-level state."""
+    if _SOLO.get('pristine'):
+        return
+    static_dir()
+    import multiprocessing
+    import os
+    keys = [(kind, size, n) for kind in ('wsgi', 'asgi') for size in ('small', 'full', 'dep') for n in REQS]
+    keys += [('aio', size, n, chunked) for size in ('small', 'full', 'dep') for n in REQS for chunked in (False, True)]
+    workers = int(os.environ.get('MC_WORKERS', '0')) or min(16, os.cpu_count() or 1)
+    with multiprocessing.get_context('fork').Pool(workers, maxtasksperchild=1) as pool:
+        for key, obs in pool.imap_unordered(_pristine_one, keys, chunksize=1):
+            _SOLO[key] = obs
+    _SOLO['pristine'] = True
 
 
 # ---------------------------------------------------------------------------
@@ -524,7 +579,7 @@ def seq_batch(batch, rep):
 
 # ---------------------------------------------------------------------------
 # requests left out of the length-4 histories of the thorough tier (they take part in every history of length <= 3)
-K4_SKIP = {'a2', 'bx', 'd', 'p2', 'u2', 'o', 'w2', 'm2'}
+K4_SKIP = {'a2', 'bx', 'd', 'p2', 'u2', 'o', 'w2', 'm2', 's2'}
 
 
 def plan(tier, seed):
@@ -534,13 +589,14 @@ def plan(tier, seed):
                     # one preemption at ANY line of the framework, on a warm router: requests using different media types,
                     # Accept headers, error paths (shared resolver / negotiation caches, per-request objects)
                     ('full', ('p1', 'f1'), 'all', 1), ('full', ('e2', 'b2'), 'all', 1), ('full', ('pq', 'a1'), 'all', 1),
-                    ('full', ('u1', 'u2'), 'all', 1), ('full', ('m', 'm2'), 'all', 1), ('full', ('w1', 'w2'), 'all', 1)]
+                    ('full', ('u1', 'u2'), 'all', 1), ('full', ('m', 'm2'), 'all', 1), ('full', ('w1', 'w2'), 'all', 1),
+                    ('full', ('s1', 's2'), 'all', 1)]
         aio_cfgs = [('full', ('a1', 'b2'), False), ('full', ('p1', 'p2'), False), ('full', ('p1', 'e1'), True), ('full', ('c', 'e2'), False),
                     # dependent middleware mode: a request rejected half-way down the stack while another is parked at an await
                     ('dep', ('p1', 'deny'), True), ('dep', ('deny', 'p2'), True),
                     # three requests in flight: every interleaving with <=3 departures from the default order
                     ('full', ('a1', 'p1', 'e2'), False, 3), ('dep', ('p1', 'deny', 'a1'), True, 2)]
-        names = ['a1', 'b2', 'c', 'e1', 'e2', 'p1', 'pq', 'nf', 'm', 'm2', 'e3', 'w1', 'w2']
+        names = ['a1', 'b2', 'c', 'e1', 'e2', 'p1', 'pq', 'nf', 'm', 'm2', 'e3', 'w1', 'w2', 's1']
         perm_k = 3
     else:
         thr_cfgs = [('small', ('a1', 'b2', 'nf'), 'router', 2), ('full', ('c', 'd'), 'router', 2),
@@ -548,7 +604,8 @@ def plan(tier, seed):
                     ('full', ('p1', 'f1'), 'all', 1), ('full', ('e2', 'b2'), 'all', 1), ('full', ('f1', 'p2'), 'all', 1),
                     ('full', ('a1', 'p1', 'f1'), 'all', 1), ('full', ('o', 'm'), 'all', 1), ('full', ('u1', 'u2'), 'all', 1),
                     ('full', ('pq', 'a1'), 'all', 1), ('full', ('m', 'm2'), 'all', 1), ('full', ('w1', 'w2'), 'all', 1),
-                    ('full', ('e3', 'm'), 'all', 1), ('full', ('w1', 'nf'), 'all', 1), ('full', ('u1', 'u2'), 'all', 2)]
+                    ('full', ('e3', 'm'), 'all', 1), ('full', ('w1', 'nf'), 'all', 1), ('full', ('s1', 's2'), 'all', 1),
+                    ('full', ('s1', 'a1'), 'all', 1), ('full', ('u1', 'u2'), 'all', 2)]
         aio_cfgs = [('full', ('a1', 'b2'), False), ('full', ('p1', 'p2'), True), ('full', ('p1', 'e1'), True), ('full', ('c', 'e2'), False),
                     # three requests in flight: the full interleaving space has 7.4e5 members per configuration (measured;
                     # 6 min each on 16 cores) -- explored here up to 5 (4) departures from the default order instead
@@ -632,11 +689,20 @@ def check(rep):
     # header names ...) into their steady state BEFORE any schedule is explored: a first execution that misses a
     # cache runs through different lines than the replays that hit it, which would make prefixes diverge.
     # (Cold-versus-warm behaviour is the subject of the sequential 'histories' part.)
+    ensure_pristine()
     for kind in ('wsgi', 'asgi'):
         for size in ('small', 'full', 'dep'):
             for n in REQS:
-                solo(kind, size, n)
-                solo(kind, size, n)
+                for _round in (0, 1):
+                    app = build_app(kind, size)
+                    got = wsgi_req(app, n) if kind == 'wsgi' else asgi_req(app, n)
+                    rep.trans()
+                    if got != solo(kind, size, n):
+                        rep.violation({'kind': 'exception' if got[3] else 'wrong-response', 'part': 'isolation', 'stack': kind},
+                                      {'cfg': {'part': 'isolation', 'kind': kind, 'size': size, 'name': n}},
+                                      '%s/%s: request %s alone on a FRESH app, but in a process that has already served other '
+                                      'requests (on other app instances), gets %r; as the first request of a fresh process it '
+                                      'gets %r' % (kind, size, n, got, solo(kind, size, n)))
     # threads
     tj = thr_jobs(thr_cfgs, rep)
     par.run_shards(thr_shard, tj, rep)
@@ -655,6 +721,17 @@ def replay(rec):
     from mc.core.report import Report
     rep = Report('C19')
     cfg = rec['cfg']
+    ensure_pristine()
+    if cfg['part'] == 'isolation':
+        bad = []
+        for kind in ('wsgi', 'asgi'):
+            for size in ('small', 'full', 'dep'):
+                for n in REQS:
+                    app = build_app(kind, size)
+                    got = wsgi_req(app, n) if kind == 'wsgi' else asgi_req(app, n)
+                    if got != solo(kind, size, n):
+                        bad.append((kind, size, n, got, solo(kind, size, n)))
+        return {'violation': bool(bad), 'details': bad[:3]}
     if cfg['part'] == 'threads':
         names = tuple(cfg['names'])
         run = thr_run_factory(cfg['size'], names, cfg['level'])
